@@ -485,7 +485,16 @@ func (c rod) BoundingBox() sdf.Box3 { return c.bb }
 func TestOctreeHighResolution(t *testing.T) {
 	rec := ev.Get()
 	rapid.Check(t, func(t *rapid.T) {
-		cells := rapid.IntRange(100, ev.Pick(900, 1400)).Draw(t, "cells")
+		// all octree depths: 8..10 levels (100..900 cells), 11 (around 1000) and 12..13 levels
+		var cells int
+		switch rapid.IntRange(0, 3).Draw(t, "depth-class") {
+		case 0, 1:
+			cells = rapid.IntRange(100, 900).Draw(t, "cells")
+		case 2:
+			cells = rapid.IntRange(900, 1100).Draw(t, "cells-1000")
+		default:
+			cells = rapid.IntRange(1100, ev.Pick(2300, 4500)).Draw(t, "cells-deep")
+		}
 		L := 100.0
 		h := L / float64(cells)
 		// the capsule spans most of the box along a random direction; radius a few cells
